@@ -295,7 +295,7 @@ func (f Union) remove(value any) (out any, changed bool) {
 	return
 }
 
-func (f Union) locate(pp Expr, data any, rest Expr, max int) (locs []Expr) {
+func (f Union) locate(pp Expr, data any, rest Expr, max int, root any) (locs []Expr) {
 	var (
 		v   any
 		has bool
@@ -352,7 +352,7 @@ func (f Union) locate(pp Expr, data any, rest Expr, max int) (locs []Expr) {
 			if len(rest) == 0 { // last one
 				locs = locateAppendFrag(locs, pp, lf)
 			} else {
-				locs = locateContinueFrag(locs, append(pp, lf), v, rest, max)
+				locs = locateContinueFrag(locs, append(pp, lf), v, rest, max, root)
 			}
 			if 0 < max && max <= len(locs) {
 				break
